@@ -27,10 +27,15 @@ WEIGHTS = {weights!r}
 CYC = {cyc!r}
 SEL = {sel!r}     # 5 seeded positions: which nodes/edges the symbolic argument may address
 
+VIA = {via!r}     # None: a fresh stDiGraph/stDAG; else the graph object held by a freshly constructed model of that class
+                  # (its constructor has already queried the object and worked with the answers)
+
 def _build():
     G = nx.DiGraph()
     for (u, v), w in zip(EDGES, WEIGHTS):
         G.add_edge(u, v, flow=w)
+    if VIA is not None:
+        return getattr(fp, VIA)(G, "flow", k=1, weight_type=int).G
     return (fp.stDiGraph if CYC else fp.stDAG)(G)
 
 _H0 = _build()
@@ -141,6 +146,9 @@ def gen_tasks(tier, seed):
     for cyc, gs in ((False, pick[0]), (True, pick[1])):
         for name, es in gs:
             tasks.append({"kind": "reach", "name": name, "edges": es, "weights": [rng.choice((0, 1, 2, 5)) for _ in es], "cyc": cyc, "hist": 2 if tier == "quick" else 3, "sel": [rng.randrange(0, 12) for _ in range(5)]})
+            # the same queries on the graph object a model keeps (constructor already used it): weights >= 1 so that the model is valid
+            for via in ((("kLeastAbsErrorsCycles", "kMinPathErrorCycles") if cyc else ("kLeastAbsErrors",)) if (tier != "quick" or name in ("nested", "parallel_inter_scc", "two_sccs", "bubble_chain")) else ()):
+                tasks.append({"kind": "reach", "name": name, "edges": es, "weights": [rng.choice((1, 2, 5)) for _ in es], "cyc": cyc, "hist": 2, "via": via, "sel": [rng.randrange(0, 12) for _ in range(5)]})
     # antichain (z3)
     for name, es in dags:
         wfs = [None, {e: rng.choice((0, 1, 2, 5)) for e in es}, {e: 0 for e in es}, {e: rng.choice((1, 2 ** 31)) for e in es}]
@@ -162,7 +170,7 @@ def gen_tasks(tier, seed):
 
 
 def _reach_src(task):
-    return REACH.format(edges=[tuple(e) for e in task["edges"]], weights=task["weights"], cyc=task["cyc"], hist=task["hist"], sel=task["sel"])
+    return REACH.format(edges=[tuple(e) for e in task["edges"]], weights=task["weights"], cyc=task["cyc"], hist=task["hist"], sel=task["sel"], via=task.get("via"))
 
 
 def run_task(task):
@@ -178,7 +186,7 @@ def run_task(task):
         tw = out.get("twin", {"verdict": "error", "message": ""})
         res["obligations"] += 1
         res["nontrivial"] += 1
-        res["samples"].append({"harness": "symbolic query history (kind, argument) x " + str(task["hist"]) + " on a fresh graph object", "graph": task["name"], "edges": task["edges"], "cyclic": task["cyc"], "verdict": v["verdict"], "twin": tw["verdict"]})
+        res["samples"].append({"harness": "symbolic query history (kind, argument) x " + str(task["hist"]) + " on " + ("a fresh graph object" if not task.get("via") else "the graph object of a fresh " + task["via"] + " model"), "graph": task["name"], "edges": task["edges"], "cyclic": task["cyc"], "verdict": v["verdict"], "twin": tw["verdict"]})
         if v["verdict"] == "confirmed" and tw["verdict"] == "counterexample":
             res["discharged"] += 1
         elif v["verdict"] == "counterexample":
